@@ -5,6 +5,10 @@ from .mirlib import call_info, strip, strip_casts, fmt, walk
 from .poly import poly, pstr
 
 
+def _KEEP_NONE(path):
+    return False
+
+
 def _is_call(e, suffixes):
     return isinstance(e, tuple) and e[0] == 'call' and (e[3] or e[1]).endswith(tuple(suffixes))
 
@@ -367,3 +371,62 @@ def pq1(facts, rep, rule='PQ-1'):
                 else:
                     rep.ok(rule, key, b.loc(bb), 'indexed by %s' % fmt(e)[:60])
     rep.floor(rule, 'table accesses', n, 6)
+
+
+# ------------------------------------------------------------------------------------------------ EP-1 (C11)
+def ep1(facts, rep, rule='EP-1'):
+    rep.rule(rule, 'end-of-input protocol: the readers signal the end by leaving the record cleared, and callers test '
+                   'Record::is_empty(). Every field that is_empty() tests must be put into exactly the tested state by '
+                   'Record::clear() on every path: fields tested with is_empty() are cleared (or replaced by a new empty '
+                   'value), fields tested with is_none() are assigned None. A clear() that keeps `Some("")` makes a reused '
+                   'record look non-empty for ever')
+    n = 0
+    for ty in ('io::fastq::Record', 'io::fasta::Record'):
+        ie, cl = facts.method(ty, 'is_empty'), facts.method(ty, 'clear')
+        if ie is None or cl is None:
+            rep.missing(rule, ty + '|clear-establishes-is_empty', 'is_empty or clear not found')
+            continue
+        ie = inline.inlined(facts, ie, keep=_KEEP_NONE, policy=inline.new_function_policy)      # accessors (self.id(), self.desc()) analysed in place
+        rep.analysed_body(ie)
+        rep.analysed_body(cl)
+        tested = {}
+        for bb, t in ie.calls():
+            info = call_info(t)
+            if not info or not t['args']:
+                continue
+            last = info['fn'].rsplit('::', 1)[-1]
+            tx = fmt(strip(ie.expr_operand(t['args'][0], inline_user=True)))
+            fs = set(re.findall(r'self\.(\w+)', tx))
+            if len(fs) == 1 and last in ('is_empty', 'is_none'):
+                tested[fs.pop()] = last
+        rets = [bb for bb in cl.reachable(0) if cl.term(bb)['k'] == 'return']
+        for f, how in sorted(tested.items()):
+            n += 1
+            key = '%s|clear-establishes-is_empty|%s' % (ty, f)
+            sites = []
+            for bb, t in cl.calls():
+                info = call_info(t)
+                if info and t['args'] and fmt(strip(cl.expr_operand(t['args'][0], inline_user=True))) == 'self.' + f and \
+                        info['fn'].rsplit('::', 1)[-1] in ('clear', 'truncate') and how == 'is_empty':
+                    sites.append(bb)
+            for bb in cl.reachable(0):
+                for s in cl.stmts(bb):
+                    if s['k'] != 'assign':
+                        continue
+                    pj = s['p'].get('pj') or []
+                    if s['p']['l'] == 1 and len(pj) == 2 and pj[0] == '*' and isinstance(pj[1], dict) and pj[1].get('n') == f:
+                        e = strip(cl.expr_rvalue(s['r'], inline_user=True))
+                        if how == 'is_none' and e[0] == 'agg' and len(e) > 2 and str(e[2]).endswith('None'):
+                            sites.append(bb)
+                        elif how == 'is_none' and s['r']['k'] == 'agg' and s['r'].get('variant') == 'None':
+                            sites.append(bb)
+                        elif how == 'is_empty' and e[0] == 'call' and (e[3] or e[1]).rsplit('::', 1)[-1] in ('new', 'default'):
+                            sites.append(bb)
+            ok = bool(sites) and all(any(cl.dominates(sb, r) for sb in sites) for r in rets)
+            if ok:
+                rep.ok(rule, key, cl.loc(sites[0]), '%s -> %s' % (how, 'cleared' if how == 'is_empty' else 'None'))
+            else:
+                rep.bad(rule, key, '%s:%s' % (cl.file, cl.line),
+                        'is_empty() tests `%s.%s()`, but clear() does not establish that on every path: after the last record '
+                        'a reused record never looks empty and the documented read loop does not terminate' % (f, how))
+    rep.floor(rule, 'tested fields', n, 7)
